@@ -30,6 +30,7 @@ CHECKS['C07'] = dict(
                dict(tu='c07_mulinv', group='mulrefs', shards=2),
                dict(tu='c07_mulinv', group='mulf', bounds=dict(G=32, nb=1), shards=1),
                dict(tu='c07_mulinv', group='inv', shards=2),
+               dict(tu='c07_mulinv', group='invscoped', shards=1),
                dict(tu='c07_mulinv', group='invwide', bounds=dict(full32=0), shards=2),
                dict(tu='c07_mulinv', group='invrefs', shards=1)],
         thorough=[dict(tu='c07_mulinv', group='mul8', shards=4),
@@ -40,9 +41,10 @@ CHECKS['C07'] = dict(
                   dict(tu='c07_mulinv', group='mulrefs', shards=2),
                   dict(tu='c07_mulinv', group='mulf', bounds=dict(G=4096, nb=1), shards=12),
                   dict(tu='c07_mulinv', group='inv', shards=2),
+                  dict(tu='c07_mulinv', group='invscoped', shards=1),
                   dict(tu='c07_mulinv', group='invwide', bounds=dict(full32=1), shards=24),
                   dict(tu='c07_mulinv', group='invrefs', shards=1)]),
-    witnesses_required=dict(all=['models_all_pairs', 'models_stratified', 'models_signed', 'results_rounded_up',
+    witnesses_required=dict(all=['inv_scoped_nonzero_min_models', 'models_all_pairs', 'models_stratified', 'models_signed', 'results_rounded_up',
                                  'ref_models', 'float_rows', 'inv_models', 'inv_signed_models', 'inv_packed_models',
                                  'inv_float_models', 'inv_float_exact_inputs', 'inv_ref_models']),
     deadline=dict(quick=600, thorough=5400),
